@@ -100,7 +100,9 @@ func c11Judge(cs *core.Case, env *Env, in, out string, lc core.LocalCounts) bool
 		// input rel of the same element: the first one the rules accept
 		inRel, haveInRel := "", false
 		for _, iv := range inputValues(inT, t.Name, "rel") {
-			if spec.Accepts(sp.RulesLenient(t.Name, "rel"), iv) {
+			// RulesStrict: only a rel the rules are guaranteed to apply to is "existing" (an explicitly
+			// named element ignores pattern rules, so its rel is dropped and nothing has to be kept)
+			if spec.Accepts(sp.RulesStrict(t.Name, "rel"), iv) {
 				inRel, haveInRel = iv, true
 				break
 			}
@@ -169,7 +171,7 @@ func runC11(ctx *core.Ctx) {
 	ctx.Assume("host-ness is judged only where RFC 3986 and WHATWG agree", "a without href and target values differing from _blank in case are not judged", "rel tokens are split on ASCII whitespace and compared ASCII-case-insensitively")
 	ctx.Exhaustive(false)
 	seqs := c11Seqs(ctx.N(4, 5))
-	K := ctx.N(6, 16)
+	K := ctx.N(10, 24)
 	swNames := []string{spec.SwNoFollow, spec.SwNoFollowFQ, spec.SwNoReferrer, spec.SwNoReferrerFQ, spec.SwTargetBlank}
 	ctx.Run("options", 32*3*2, func(cs *core.Case) {
 		mask := cs.Index % 32
